@@ -30,6 +30,8 @@ def run(tier):
                  title='converted_call is not transparent', setup='prewarm')
   unit.run_units(R, 'vf.harness.c13', c13.POLICY, 120.0, 30.0,
                  title='conversion policy differs from the documented decision table')
+  unit.run_units(R, 'vf.harness.c13', c13.POLICY2, 240.0, 30.0,
+                 title='a context-dependent conversion decision was remembered (two-call history)')
   unit.run_units(R, 'vf.harness.c13', c13.FALLBACK, 120.0, 60.0,
                  title='conversion failure is not handled by a safe, remembered fall-back')
   n_policy = len(c13.POLICY) * 24
